@@ -7,8 +7,14 @@ import Darling.UsageTypes
 
 namespace Usage
 
-/-- `impl UsesTypeParams for Ident`: `type_set.iter().filter(|v| *v == self)` -/
-def identHits (S : List String) (i : String) : List String := S.filter (· == i)
+/-- `Ident::unraw`: `r#T` and `T` are the same name -/
+def unraw (s : String) : String :=
+  match s.toList with
+  | 'r' :: '#' :: rest => String.ofList rest
+  | _ => s
+
+/-- `impl UsesTypeParams for Ident`: `type_set.iter().filter(|v| v.unraw() == self.unraw())` -/
+def identHits (S : List String) (i : String) : List String := S.filter (fun v => unraw v == unraw i)
 
 mutual
 /-- `impl UsesTypeParams for syn::Type` -/
